@@ -4,6 +4,8 @@ import LibfiveTheorems.C15
 #print axioms Libfive.C15.interval_frame
 #print axioms Libfive.C15.gradient_frame
 #print axioms Libfive.C15.updateVars_effect
-#print axioms Libfive.C15.feature_walk_frame
+#print axioms Libfive.C15.pushedTape_frame
+#print axioms Libfive.C15.features_frame
+#print axioms Libfive.C15.isInside_frame
 #print axioms Libfive.C15.history_independent
 #print axioms Libfive.C15.core_preserved
